@@ -14,7 +14,7 @@ int is reported with ValueError.
 import itertools
 import warnings
 
-from .. import core
+from .. import core, registry
 
 PROPERTY = 'C14'
 LEVEL = 'fault_enumeration'
@@ -36,6 +36,27 @@ class U2(U1):
 class U3(U1):
     def __repr__(self):
         return 'U3<%d>' % len(self.ch)
+
+
+class U4(U1):
+    """Printer accepts trailing_comment only through **kwargs."""
+
+    def __repr__(self):
+        return 'U4<%d>' % len(self.ch)
+
+
+class BaseByName(U1):
+    """Its printer is registered by qualified name and is still pending when a run starts."""
+
+    def __repr__(self):
+        return 'BaseByName<%d>' % len(self.ch)
+
+
+class UD(BaseByName):
+    """Subclass instance: the pending printer of the base is promoted through the MRO."""
+
+    def __repr__(self):
+        return 'UD<%d>' % len(self.ch)
 
 
 class Custom(Exception):
@@ -66,6 +87,7 @@ def hook(v):
 
 
 _reg = []
+DEFERRED = {}
 
 
 def ensure_registered():
@@ -89,6 +111,20 @@ def ensure_registered():
             return r
         return pretty_call(ctx, U2, *v.ch)
 
+    @register_pretty(U4)
+    def p_u4(v, ctx, **kwargs):
+        r = hook(v)
+        if r is not None:
+            return r
+        return pretty_call(ctx, U4, *v.ch)
+
+    def p_ud(v, ctx):
+        r = hook(v)
+        if r is not None:
+            return r
+        return pretty_call(ctx, type(v), *v.ch)
+    DEFERRED['mc.checks.c14.BaseByName'] = p_ud
+
     @register_pretty(U3)
     def p_u3(v, ctx):
         r = hook(v)
@@ -102,14 +138,15 @@ def ensure_registered():
         docs.append(')')
         return concat(docs)
     _reg.append(1)
+    registry.get().snap()
 
 
-PRINTER_NAMES = {'U1': 'p_u1', 'U2': 'p_u2', 'U3': 'p_u3'}
+PRINTER_NAMES = {'U1': 'p_u1', 'U2': 'p_u2', 'U3': 'p_u3', 'U4': 'p_u4', 'UD': 'p_ud'}
 
 
 # ----------------------------------------------------------------------------- trees
 
-KINDS = ('U1', 'U2', 'U3', 'list', 'dict', 'tuple')
+KINDS = ('U1', 'U2', 'U3', 'U4', 'UD', 'list', 'dict', 'tuple')
 
 
 def shapes(n):
@@ -163,7 +200,7 @@ def build(spec):
         elif kind == 'dict':
             v = {'k%d' % j: c for j, c in enumerate(ch)}
         else:
-            v = {'U1': U1, 'U2': U2, 'U3': U3}[kind](*ch)
+            v = {'U1': U1, 'U2': U2, 'U3': U3, 'U4': U4, 'UD': UD}[kind](*ch)
         if wrap and wrap[0] == i:
             if 't' in wrap[1]:
                 v = trailing_comment(v, 'tc')
@@ -176,6 +213,10 @@ def build(spec):
 def run_once(spec, plan):
     from prettyprinter import pformat
     v = build(spec)
+    # every run starts from the same registries: the by-name printer of BaseByName is pending again
+    R = registry.get()
+    R.restore()
+    R.pp._DEFERRED_DISPATCH_BY_NAME.update(DEFERRED)
     STATE['i'] = -1
     STATE['plan'] = plan
     STATE['fired'] = 0
